@@ -161,7 +161,7 @@ func init() {
 			if bad := ref.Check(prog.B); len(bad) > 0 {
 				return fw.Result{Verdict: fw.Inconclusive, Key: "generator-invalid", Msg: strings.Join(bad, "; ")}
 			}
-			lay := ref.Layout{Multiline: ctx.Rng.Bool(), CRLF: ctx.Rng.P(1, 5)}
+			lay := ref.Layout{Multiline: ctx.Rng.Bool(), CRLF: ctx.Rng.P(1, 5), Attrs: ctx.Rng.P(1, 3)}
 			files := bundleSources(prog.B, lay)
 			ctx.Cell(fmt.Sprintf("layout:multiline=%v,crlf=%v", lay.Multiline, lay.CRLF))
 			kinds, bindings := shapeOf(prog.B)
